@@ -3,7 +3,7 @@ from vlib import sesscheck
 
 ID = 'C14'
 LEVEL = 'exploration'
-RULE = 'Same program space as C09 with key-bearing operations weighted up (explicit int/str/composite pks from a 5-value domain, unique and composite-unique scalars, None in optional keys, explicit ids on auto-increment entities, delete-then-recreate, value moves between objects, conflicts with rows not loaded in the session). Oracle: if the reference store holds two live objects with an equal key at commit, commit must raise and the database must equal the pre-session snapshot; a raw scan after every session never shows two rows with an equal primary, unique or composite key. Non-trivial = a program with a key conflict (refused or deferred) or a failed commit; distinct by program hash.'
+RULE = 'Same program space as C09 with key-bearing operations weighted up (explicit int/str/composite pks from a 5-value domain, unique and composite-unique scalars, None in optional keys, explicit ids on auto-increment entities, delete-then-recreate, value moves between objects, conflicts with rows not loaded in the session). Oracle: if the reference store holds two live objects with an equal key at commit, commit must raise and the database must equal the pre-session snapshot; a raw scan after every session never shows two rows with an equal primary, unique or composite key. Non-trivial = a program with a key conflict (refused or deferred) or a failed commit; distinct by program hash. A share of the programs (one third; one half for C11/C13/C15) comes from the hub family: every relationship starts at one entity, with cascading/unlinking relationships declared around a refusing one, populated, and then aimed operations (pending updates of children, pending removals on the hub collections, new children with explicit keys) precede the delete of the hub, so that deletes refused after part of their cascade are common.'
 ASSUMPTIONS = ['live SQLite (in-memory) with foreign keys enforced immediately',
                'reference store vlib/refstore.py written from the documented relationship/cascade/key semantics (DESIGN.md section 7a)',
                'table and column names are taken from the mapping metadata (names only)']
